@@ -375,8 +375,12 @@ def check_property(pid, tier, seed, replay=None):
     known = [k for k in load_known().get("findings", []) if k["property"] == pid]
     known_clauses = {k["clause"] for k in known}
 
+    # a domain may name further clauses that count for this property on ITS cases only (e.g. the framing clauses on the block domain)
+    dom_prefixes = {d["name"]: tuple(d.get("clauses", [])) for d in P["domains"]}
+
     def relevant(rj):
-        return [c for c in rj["clauses"] if c.startswith(prefixes)]
+        extra = dom_prefixes.get(rj.get("domain", "").split(".")[0], ())
+        return [c for c in rj["clauses"] if c.startswith(prefixes + extra)]
 
     diffs, rejects, faults, unparsed, errors = [], [], [], [], []
     cases = nontrivial = 0
